@@ -227,6 +227,31 @@ class SpectrumStage(Stage):
     def sig(self, i):
         return i
 
+    def bads(self):
+        """a spectrum the sampler must refuse (a power law on a band of zero width), configured on the live
+        configuration object and taken back afterwards: the calls that follow see the original spectrum again"""
+        sp = self.cfg.simulation.spectrum
+        if not hasattr(sp, "lower_bound"):
+            return []
+
+        def f(s):
+            lo, hi = sp.lower_bound, sp.upper_bound
+            try:
+                sp.upper_bound = lo
+                with own.RngStub(feeds=[np.array(self.ev)]).installed():
+                    s(self.k)
+            finally:
+                sp.lower_bound, sp.upper_bound = lo, hi
+
+        return [("power law on a band of zero width", f)]
+
+
+class MonoSpectrumStage(SpectrumStage):
+    name = "Spectra.__call__ (mono-energetic)"
+
+    def __init__(self, variant=0):
+        super().__init__(1)
+
 
 class TausStage(Stage):
     def __init__(self, which, version="3", variant=0):
@@ -476,7 +501,7 @@ class RadioStage(Stage):
 
 
 def stages(tier):
-    out = [DiffuseGeom(), DiffuseGeomCall(), TargetGeom(), SpectrumStage(), TausStage("tau_energy"), TausStage("tau_exit_prob"), TausStage("__call__"), TausStage("tau_exit_prob", "1"), AltDecStage(), EASStage(), EASClearStage(), RadioStage()]
+    out = [DiffuseGeom(), DiffuseGeomCall(), TargetGeom(), SpectrumStage(), MonoSpectrumStage(), TausStage("tau_energy"), TausStage("tau_exit_prob"), TausStage("__call__"), TausStage("tau_exit_prob", "1"), AltDecStage(), EASStage(), EASClearStage(), RadioStage()]
     return out
 
 
@@ -574,6 +599,61 @@ def judge_after_error(st):
             if hit:
                 break
     return out, n
+
+
+def _scribble(obj, depth=0, seen=None):
+    """overwrite in place every writeable numeric array reachable from the object's attributes (tables, grids, work
+    arrays): returns how many arrays were overwritten"""
+    seen = set() if seen is None else seen
+    if id(obj) in seen or depth > 3:
+        return 0
+    seen.add(id(obj))
+    n = 0
+    if isinstance(obj, np.ndarray):
+        if obj.flags.writeable and obj.dtype.kind in "fiu" and obj.size:
+            try:
+                obj[...] = 3 if obj.dtype.kind != "f" else -7.25
+                n += 1
+            except Exception:
+                pass
+        return n
+    if isinstance(obj, (list, tuple)):
+        for x in obj[:50]:
+            n += _scribble(x, depth + 1, seen)
+        return n
+    if isinstance(obj, dict):
+        for x in list(obj.values())[:50]:
+            n += _scribble(x, depth + 1, seen)
+        return n
+    mod = type(obj).__module__ or ""
+    if mod.startswith("nuspacesim") and not mod.startswith("nuspacesim.config"):
+        for name in ("data", "axes"):
+            try:
+                if hasattr(obj, name):
+                    n += _scribble(getattr(obj, name), depth + 1, seen)
+            except Exception:
+                pass
+        for v in list(getattr(obj, "__dict__", {}).values()):
+            n += _scribble(v, depth + 1, seen)
+    return n
+
+
+def judge_private_tables(st):
+    """an object is used, then every table / grid / array it holds is overwritten in place (the caller experiments on ITS
+    object); an object constructed AFTERWARDS reads the shipped data: its results are those of any fresh object"""
+    full = list(range(st.k))
+    try:
+        base = [st.rows(st.make(), [i])[0][0] for i in full]
+        a = st.make()
+        st.rows(a, full)
+        n = _scribble(a)
+        b = st.make()
+        r, ok = st.rows(b, full)
+    except Exception as ex:
+        return [("instances_do_not_share_tables", "private_tables", [st.name], f"{type(ex).__name__}: {str(ex)[:80]}")], 1
+    if any(r[pos] != base[i] for pos, i in enumerate(full)):
+        return [("instances_do_not_share_tables", "private_tables", [st.name], f"an object built after {n} arrays of an earlier object were overwritten differs from a fresh one")], 1
+    return [], 1
 
 
 def judge_two_instances(sa, sb, bases):
@@ -795,6 +875,12 @@ def run(ctx):
         ctx.tick(n, (st.name, "after_error"))
         for c, kind, seq, what in v[:2]:
             ctx.violation(c, {"kind": "after_error", "stage": st.name, "tier": tier}, "same bytes as on a fresh object", what)
+    for st in stages(tier):
+        v, n = judge_private_tables(st)
+        tot_ctx += n
+        ctx.tick(n * st.k, (st.name, "private_tables"))
+        for c, kind, seq, what in v[:1]:
+            ctx.violation(c, {"kind": "private_tables", "stage": st.name, "tier": tier}, "same bytes as on a fresh object", what)
     fb = fresh_bases()
     for (cname, cargs), (sa, sb) in zip(VARIANT_SPECS, variant_pairs()):
         v, n = judge_two_instances(sa, sb, [fb[(cname, tuple(cargs), 0)], fb[(cname, tuple(cargs), 1)]])
@@ -824,6 +910,12 @@ def replay(case):
         for s_ in stages(case.get("tier", "quick")):
             if s_.name == case["stage"]:
                 out += [(c, "same bytes as on a fresh object", what) for c, kind, seq, what in judge_after_error(s_)[0]]
+        return out
+    if case["kind"] == "private_tables":
+        out = []
+        for s_ in stages(case.get("tier", "quick")):
+            if s_.name == case["stage"]:
+                out += [(c, "same bytes as on a fresh object", what) for c, kind, seq, what in judge_private_tables(s_)[0]]
         return out
     if case["kind"] == "two_instances":
         out = []
